@@ -238,8 +238,12 @@ package bridgesync
 // the events of a block range as the certificate builder gets them (C02, C03): one read transaction, the range query for
 // exactly the bounds given over the bridge (resp. claim) table; "not found" from the query is an empty answer, any other
 // failure an error. (The row mapping - meddler.ScanAll, SlicePtrsToSlice - is reflection-driven and assumed, A4.)
+//@ extern (*database/sql.DB).BeginTx@bridgesync.(*processor).startTransaction (d, ctx, opts)
+//@   modifies nothing
+//@   ensures result1 == nil ==> result0 != nil
 //@ func (p *processor) startTransaction (p, ctx, readOnly)
-//@   trusted
+//@   props C02 C03
+//@   requires p != nil
 //@   modifies nothing
 //@   ensures result1 != nil ==> result0 == nil
 //@   ensures result1 == nil ==> result0 != nil
